@@ -317,5 +317,16 @@ def main(ck, tier, w):
         exact = Fraction(sum(lst), len(lst))
         if not isinstance(o, dict) or 'mean' not in o or abs(Fraction(o['mean']) - exact) > Fraction(1, 10 ** 5) + abs(exact) / 10 ** 12:
             ck.violation('get_mean(%s...) = %s, exact mean is %s' % (lst[:4], o, float(exact)), {'list': lst[:50], 'observed': o, 'tags': []})
+    # counts beyond 16 bits (66 000 transactions in a block; 65 600 inputs, outputs, witness items; 66 000-byte scripts)
+    from lib import extremes
+    xb = extremes.wide_chain('%d-c15' % seed)
+    xd = write_dir(w, xb, 0)
+    r = run.run_parser(xd.path, 'simplestats', timeout=600)
+    ck.evals()
+    ck.distinct(('wide',))
+    probs = ['exit status %d: %s' % (r.rc, r.stderr[-300:])] if r.rc != 0 else compare(chains.parse_stats(r.stdout), expected_from_ref(list(enumerate(xb)), 'bitcoin'))
+    if probs:
+        ck.violation('wide chain: ' + '; '.join(probs[:4]), {'scenario': '66 000 transactions in a block, 65 600 inputs / outputs / witness items',
+                                                             'observed': r.brief(), 'tags': []})
     ck.assumptions += ['timestamps >= 1', 'a coinbase has at least one output', 'total volume below 2^64',
                        'the order of the per-type section is not a figure (HashMap iteration order)']
